@@ -1,5 +1,6 @@
 import Yomm2.Props.C01c
 import Yomm2.Props.C13b
+import Yomm2.Props.C09c
 /-!
 # A concrete instance of the end-to-end theorem (non-vacuity)
 
@@ -91,5 +92,79 @@ open Yomm2
 /-- C13 on the same registry: the kernel decodes what the encoder emits and finds the words `install` wrote -/
 example : ((decode (encode c0) (RoundTrip.msOf c0) [0, 1, 2]).toOption.map (fun d => d.toInstalled.data.toList)) =
     s1.inst.map (fun i => i.data.toList) := by decide +kernel
+
+end Yomm2.Props.Examples
+
+namespace Yomm2.Props.Examples
+open Yomm2 Yomm2.Spec Yomm2.GraphProofs Yomm2.Props.C01
+
+/-! ## a pointer kept across an update (indirect policy): `C09_kept_pointers_follow_updates` applies -/
+
+instance {ε α} [DecidableEq ε] [DecidableEq α] : DecidableEq (Except ε α)
+  | .ok a, .ok b => if h : a = b then isTrue (by rw [h]) else isFalse (by intro h'; cases h'; exact h rfl)
+  | .error a, .error b => if h : a = b then isTrue (by rw [h]) else isFalse (by intro h'; cases h'; exact h rfl)
+  | .ok _, .error _ => isFalse (by intro h; cases h)
+  | .error _, .ok _ => isFalse (by intro h; cases h)
+
+def methodsP : List MethodRec := [⟨7, [.vptr, .nonvirt, .virt], [10, 10], [⟨100, [20, 30]⟩, ⟨101, [10, 10]⟩]⟩]
+/-- the same method after a plugin added the definition (Dog, Animal) -/
+def methodsP' : List MethodRec := [⟨7, [.vptr, .nonvirt, .virt], [10, 10], [⟨100, [20, 30]⟩, ⟨101, [10, 10]⟩, ⟨102, [20, 10]⟩]⟩]
+def p0 : PState := { cfg := { indirect := true }, classes := classes0, methods := methodsP }
+def p1 : PState := (p0.update []).1
+/-- a `virtual_ptr<Animal>` to a Dog, made after the first update -/
+def dogPtr : VPtr := { obj := 20, ref := .cell 20 }
+example : p1.mkVPtr 20 = .ok dogPtr := by decide +kernel
+def p1' : PState := { p1 with methods := methodsP' }
+def p2 : PState := (p1'.update []).1
+
+/-- through the kept pointer, `meet(dog, 0, dog)` ran (Animal, Animal) before the second update and runs
+    the new (Dog, Animal) after it -/
+example : p1.callWith 7 [(.vptr, 20), (.nonvirt, 0), (.virt, 20)] .ref [(0, dogPtr)] = .ran 101 := by decide +kernel
+example : p2.callWith 7 [(.vptr, 20), (.nonvirt, 0), (.virt, 20)] .ref [(0, dogPtr)] = .ran 102 := by decide +kernel
+
+theorem hupP : p1'.update [] = (p2, .ok, []) := by
+  have h1 : updOk (p1'.update []).2.1 = true := by decide +kernel
+  have h2 : (p1'.update []).2.2 = [] := by decide +kernel
+  have h3 : (p1'.update []).2.1 = .ok := by
+    cases h : (p1'.update []).2.1 with
+    | ok => rfl
+    | raised e => rw [h] at h1; cases h1
+  have : p1'.update [] = ((p1'.update []).1, (p1'.update []).2.1, (p1'.update []).2.2) := rfl
+  rw [this, h3, h2]
+  rfl
+
+theorem compiledP_isSome : p2.compiled.isSome = true := by decide +kernel
+def cP : Compiled := p2.compiled.get compiledP_isSome
+theorem hcP : p2.compiled = some cP := by simp [cP]
+def mP : MethodC := { key := 7, shape := [.vptr, .nonvirt, .virt], vp := [0, 0], specs := [(100, [1, 2]), (101, [0, 0]), (102, [1, 0])] }
+
+/-- all hypotheses of the theorem hold for the call through the pointer made before the second update -/
+example : ∃ mr o, p1'.registry.methods[0]? = some mr ∧
+    Selects p1'.cfg.proj p1'.registry mr.defs ((virtIds [(.vptr, 20), (.nonvirt, 0), (.virt, 20)]).map p1'.cfg.proj) o ∧
+    p2.callWith 7 [(.vptr, 20), (.nonvirt, 0), (.virt, 20)] .ref [(0, dogPtr)] =
+      expected mP.vp.length [(.vptr, 20), (.nonvirt, 0), (.virt, 20)] o := by
+  apply C09.C09_kept_pointers_follow_updates p1' p2 [] [] hupP wf0 _ cP hcP 7 0 mP _ [(.vptr, 20), (.nonvirt, 0), (.virt, 20)] [1, 1]
+  · decide +kernel
+  · exact Forall₂.cons (by decide +kernel) (Forall₂.cons (by decide +kernel) Forall₂.nil)
+  · exact Forall₂.cons (by decide +kernel) (Forall₂.cons (by decide +kernel) Forall₂.nil)
+  · decide
+  · decide +kernel
+  · intro x hx id hm
+    simp only [List.mem_cons, List.not_mem_nil, or_false] at hx
+    subst hx
+    have : id = 20 := by
+      simp only [List.zipIdx_cons, List.zipIdx_nil, List.mem_cons, List.not_mem_nil, or_false, Prod.mk.injEq] at hm
+      rcases hm with ⟨⟨_, h⟩, _⟩ | ⟨⟨h, _⟩, _⟩ | ⟨⟨h, _⟩, _⟩
+      · exact h
+      · cases h
+      · cases h
+    subst this
+    exact ⟨p1, by decide +kernel, Or.inl (by decide +kernel)⟩
+  · intro r hr
+    have hcl : p1'.registry.classes = s0.registry.classes := by decide +kernel
+    rw [hcl] at hr
+    simp only [s0, PState.registry, classes0, List.map_cons, List.map_nil, List.mem_cons, List.not_mem_nil, or_false] at hr
+    rcases hr with rfl | rfl | rfl <;> decide
+  · decide +kernel
 
 end Yomm2.Props.Examples
